@@ -40,6 +40,11 @@ R.contract("AvpOctetString.value.fset#str", params={"self": "AvpOctetString", "n
            raises=[Raise("AvpEncodeError", "True", "iff")], props=["C01"],
            note="domain rejection: a non-bytes value is refused")
 
+R.contract("AvpOctetString.value.fset#int", params={"self": "AvpOctetString", "new_value": "int"},
+           ensures=[("never-returns", "False")],
+           raises=[Raise("AvpEncodeError", "True", "iff")], props=["C01"],
+           note="domain rejection: an integer is not an octet string (round 6, seed C01-17: bytes(5) is five NUL octets)")
+
 R.contract("AvpUtf8String.value", params={"self": "AvpUtf8String"}, returns="str",
            ensures=[("decodes", "valid_utf8(self.payload) and result == utf8dec(self.payload)")],
            raises=[Raise("AvpDecodeError", "not valid_utf8(self.payload)", "iff")], props=["C01", "C04"])
@@ -48,6 +53,9 @@ R.contract("AvpUtf8String.value.fset", params={"self": "AvpUtf8String", "new_val
            raises=[Raise("AvpEncodeError", "not encodable(new_value)", "iff")],
            modifies=["self.payload"], props=["C01"])
 R.contract("AvpUtf8String.value.fset#bytes", params={"self": "AvpUtf8String", "new_value": "bytes"},
+           ensures=[("never-returns", "False")],
+           raises=[Raise("AvpEncodeError", "True", "iff")], props=["C01"])
+R.contract("AvpUtf8String.value.fset#int", params={"self": "AvpUtf8String", "new_value": "int"},
            ensures=[("never-returns", "False")],
            raises=[Raise("AvpEncodeError", "True", "iff")], props=["C01"])
 R.lemma_ob("roundtrip[AvpUtf8String]", vars={"s": "str"}, assumes=["encodable(s)"],
